@@ -817,7 +817,7 @@ FILTER_NAMES = ["upcase", "size", "append", "default", "slice", "join", "replace
 KW_NAMES = ["allow_false", "k", "j", "x", "y", "a-b", "1x"]
 
 
-def gen_expr_cases(ck):
+def gen_expr_cases(ck, n=None, damage=True):
     """(kind, tree or None, source tokens, wrapper).  The tree is None where the source was mutated (it may not parse)."""
     rng = ck.rng
     cond_atoms = [("var", c12.Opd("a", True)), ("var", c12.Opd("b", False)), ("var", c12.Opd("c", None))] + \
@@ -1025,9 +1025,9 @@ def gen_expr_cases(ck):
         w = rng.choice(["increment", "decrement", "capture"])
         return ("capture" if w == "capture" else "ident"), ("ident", n), ident_toks(n), w
 
-    for _ in range(800 if ck.quick else 8000):
+    for _ in range(n if n is not None else 800 if ck.quick else 8000):
         kind, tree, toks, wrap = one()
-        if rng.random() < 0.12 and len(toks) > 1:           # a damaged source: the parsers must agree on accepting it or not
+        if damage and rng.random() < 0.12 and len(toks) > 1:           # a damaged source: the parsers must agree on accepting it or not
             # (not the `if` of a ternary nor its condition: condition tokens are in the condition model's vocabulary and must stay behind an `if`)
             i = rng.choice([j for j, t in enumerate(toks) if t[0] != "cond" and t != ("kw", "if")])
             toks = toks[:i] + rng.choice([[], [("comma",)], [toks[i], ("comma",)], [("colon",)], [toks[i], toks[i]]]) + toks[i + 1:]
@@ -1050,6 +1050,174 @@ WRAPS = {
     "render": ("{%% render %s %%}", r"\{% render (.*) %\}"), "increment": ("{%% increment %s %%}", r"\{% increment (.*) %\}"),
     "decrement": ("{%% decrement %s %%}", r"\{% decrement (.*) %\}"), "capture": ("{%% capture %s %%}x{%% endcapture %%}", r"\{% capture (.*) %\}x\{% endcapture %\}"),
 }
+
+
+# ------------------------------------------------------------------ layer G: whole templates with structured payloads
+# A template is a tree of ("text", s) | ("raw", s) | ("comment", s) | ("out", toks) | ("tag", name, pay) | ("block", name, pay, body, secs)
+# where pay is ("toks", source tokens) | ("cond", condition tokens) | ("none",) | ("opaque", text).  The model (TemplateFull.v) gets the
+# tag-level tokens of the SOURCE (expression text as written) and, as its expression lexer, the table text -> tokens.
+COND_TAGS = ("if", "elsif", "unless")
+OPAQUE_TAGS = ("liquid", "#")
+G_COND_VARS = {n: c12.Opd(n, v) for n, v in (("ca", True), ("cb", False), ("cc", None))}
+
+
+def gen_full(ck):
+    rng = ck.rng
+    pools = {}
+    for _kind, tree, toks, w in gen_expr_cases(ck, n=500 if ck.quick else 4000, damage=False):
+        if not has_nil(tree):                       # the nil literal is the recorded finding: layers D and F exercise it
+            pools.setdefault(w, []).append(toks)
+    atoms = [("var", o) for o in G_COND_VARS.values()] + [("lit", o) for o in c12.OPERANDS if o.literal is not None and o.name not in ("n",)]
+
+    def cond(d):
+        r = rng.random()
+        if d == 0 or r < 0.25:
+            return [rng.choice(atoms)]
+        if r < 0.4:
+            return ["not"] + cond(d - 1)
+        if r < 0.5:
+            return ["("] + cond(d - 1) + [")"]
+        if r < 0.7:
+            return [rng.choice(atoms), ("op", rng.choice(c12.OPS)), rng.choice(atoms)]
+        return cond(d - 1) + [rng.choice(["and", "or"])] + cond(d - 1)
+
+    def pay(w):
+        return ("toks", rng.choice(pools[w]))
+
+    def inline(in_for):
+        name = rng.choice(["assign", "echo", "cycle", "increment", "decrement", "include", "render", "liquid", "#"] + (["break", "continue"] if in_for else []))
+        if name in ("break", "continue"):
+            return ("tag", name, ("none",))
+        if name == "liquid":
+            return ("tag", name, ("opaque", "assign z = 1\necho z"))
+        if name == "#":
+            return ("tag", name, ("opaque", "note"))
+        return ("tag", name, pay(name))
+
+    def nodes(depth, in_for):
+        out = []
+        for _ in range(rng.randrange(0, 4)):
+            r = rng.random()
+            if r < 0.18:
+                if out and out[-1][0] == "text":
+                    continue
+                out.append(("text", rng.choice(TEXTS)))
+            elif r < 0.23:
+                out.append(("raw", rng.choice(RAWS)))
+            elif r < 0.27:
+                out.append(("comment", rng.choice(["c", "hidden {{ x }}"])))
+            elif r < 0.5:
+                out.append(("out", rng.choice(pools["out"])))
+            elif r < 0.72 or depth == 0:
+                out.append(inline(in_for))
+            else:
+                out.append(block(depth - 1, in_for))
+        return out
+
+    def block(depth, in_for):
+        name = rng.choice(["if", "if", "unless", "case", "for", "for", "tablerow", "capture", "ifchanged"])
+        secs = []
+        if name in ("if", "unless"):
+            p = ("cond", cond(2))
+            for _ in range(rng.randrange(0, 3)):
+                secs.append(("elsif", ("cond", cond(1)), nodes(depth, in_for)))
+            if rng.random() < 0.5:
+                secs.append(("else", ("none",), nodes(depth, in_for)))
+            body = nodes(depth, in_for)
+        elif name == "case":
+            p, body = pay("case"), []
+            for _ in range(rng.randrange(0, 4)):
+                secs.append(("else", ("none",), nodes(depth, in_for)) if rng.random() < 0.3 else ("when", pay("when"), nodes(depth, in_for)))
+        elif name == "for":
+            p, body = pay("for"), nodes(depth, True)
+            if rng.random() < 0.4:
+                secs.append(("else", ("none",), nodes(depth, in_for)))
+        elif name == "tablerow":
+            p, body = pay("tablerow"), nodes(depth, True)
+        elif name == "capture":
+            p, body = pay("capture"), nodes(depth, in_for)
+        else:
+            p, body = ("none",), nodes(depth, in_for)
+        return ("block", name, p, body, secs)
+
+    for _ in range(150 if ck.quick else 2500):
+        t = nodes(2 if ck.quick else 3, False)
+        if t:
+            yield t
+
+
+def g_pay_text(p, rng):
+    if p[0] == "toks":
+        return etoks_text(p[1], rng)
+    if p[0] == "cond":
+        return c12.expr_src(p[1])
+    return p[1] if p[0] == "opaque" else ""
+
+
+def full_source(ns, rng, ttoks, tab):
+    """Source text of the tree; appends its tag-level tokens to [ttoks] and fills [tab]: expression text -> (kind, tokens)."""
+    out = []
+
+    def tag(name, p):
+        text = g_pay_text(p, rng)
+        if p[0] in ("toks", "cond"):
+            tab.setdefault(text, set()).add((p[0], tuple(p[1])))
+        ttoks.append(("KTag", name, text))
+        return "{% " + name + (" " + text if text else "") + " %}"
+
+    for n in ns:
+        k = n[0]
+        if k == "text":
+            ttoks.append(("KText", n[1]))
+            out.append(n[1])
+        elif k == "raw":
+            ttoks.append(("KRaw", n[1]))
+            out.append("{% raw %}" + n[1] + "{% endraw %}")
+        elif k == "comment":
+            ttoks.append(("KComment", n[1]))
+            out.append("{% comment %}" + n[1] + "{% endcomment %}")
+        elif k == "out":
+            text = etoks_text(n[1], rng)
+            tab.setdefault(text, set()).add(("toks", tuple(n[1])))
+            ttoks.append(("KOut", text))
+            out.append("{{ " + text + " }}")
+        elif k == "tag":
+            out.append(tag(n[1], n[2]))
+        else:
+            _, name, p, body, secs = n
+            out.append(tag(name, p) + full_source(body, rng, ttoks, tab))
+            for sn, sp, sb in secs:
+                out.append(tag(sn, sp) + full_source(sb, rng, ttoks, tab))
+            ttoks.append(("KTag", "end" + name, ""))
+            out.append("{% end" + name + " %}")
+    return "".join(out)
+
+
+def g_ftoks(ttoks, vars_by_name):
+    """Two-level tokens (Gallina) of a serialised template; None if some expression is outside the vocabulary."""
+    out = []
+    for t in ttoks:
+        if t[0] == "KOut":
+            e = expr_tokens(t[1], vars_by_name)
+            if e is None:
+                return None
+            out.append("GOut " + g_list(e))
+        elif t[0] == "KTag":
+            name, text = t[1], t[2]
+            if name in OPAQUE_TAGS:
+                out.append(f"GTagText {g_str(name)} {g_str(text)}")
+                continue
+            if name in COND_TAGS:
+                c = cond_tokens(text, vars_by_name)
+                e = None if c is None else [f"ECond ({c12.g_tok(x)})" for x in c]
+            else:
+                e = expr_tokens(text, vars_by_name) if text else []
+            if e is None:
+                return None
+            out.append(f"GTag {g_str(name)} {g_list(e)}")
+        else:
+            out.append({"KText": "GText ", "KRaw": "GRaw ", "KComment": "GComment "}[t[0]] + g_str(t[1]))
+    return out
 
 
 # corpus: the concrete inputs on which str() used to lose or change meaning (kept so that a regression is reported with them first)
@@ -1079,7 +1247,11 @@ def run(ck: Check) -> None:
         "ranges, nested/quoted/keyword-named paths, floats, sloppy commas, offset:continue, 12% damaged by one token) as SOURCE TOKENS: the model parses and prints "
         "them, str() of the same source is tokenised, compared inside Coq (also: the generated tree printed by the model; parse-print-parse-print; every parsed tree "
         "without nil is well formed). Every case is checked on the implementation "
-        "(str() parses; renders equal on 4 data sets; str of the re-parse is the same text); A-C, E and F are also evaluated in the Coq model. "
+        "G: seeded random WHOLE templates with structured payloads (block tags with sections to depth 2/3, every tag's expression drawn from the payload "
+        "generator of F, if/elsif/unless conditions as condition trees, liquid / inline comment opaque): the model gets the tag-level tokens of the source and the "
+        "table expression text -> tokens as its lexer, runs the block parser and then each tag's expression parser, prints; str() of the same source is tokenised "
+        "at both levels and compared inside Coq; sources the implementation rejects must be rejected by the model. Every case is checked on the implementation "
+        "(str() parses; renders equal on 4 data sets; str of the re-parse is the same text); A-C, E, F and G are also evaluated in the Coq model. "
         "Non-trivial = the original source parses; distinct = distinct source."
     )
     ck.exhaustive = True
@@ -1090,7 +1262,9 @@ def run(ck: Check) -> None:
         "modelled not verified: the expression lexer (tokens are taken as given: a keyword is never a word, a string has one kind of quote; which characters "
         "RE_PROPERTY / \\w accept beyond ASCII), the template lexer (tag-level tokens are taken as given; C10); the condition of a ternary is in the vocabulary "
         "of the condition model (an operand is one token); that every tree the parser builds without nil is well formed is evaluated on the generated sources "
-        "(run_xwf), not proved; expression payloads are opaque to the tag-structure model (TagTree) and the two are not composed into one parser",
+        "(run_xwf), not proved; in the composed model of whole templates (TemplateFull) the expression lexer and the spelling of a token list are PARAMETERS: "
+        "the theorem assumes lex (render ts) = Ok ts for the payloads of the tree (not discharged by ExprLex, whose token record and level differ); the harness's "
+        "tokenisers play that role in the correspondence; whitespace control markers and text dropped by the case tag are outside the tag-level tokens",
     ]
     ck.assumptions = ["default delimiters; strict mode, no shorthand indexes, no keyword assignment; logical_not_operator, logical_parentheses and "
                       "ternary_expressions enabled; the nil/null literal is the recorded known finding (its serialisation to '' is pinned by the existing tests)"]
@@ -1272,6 +1446,53 @@ def run(ck: Check) -> None:
                              {"type": "roundtrip", "template": src, "str": s, "model": model[:2000], "model_case": cs[i][:4000], "expected": ex[i][:4000],
                               "broken": f"correspondence ExprSyntax.{fn} ~ parse/__str__ of the expression classes (theorems C04_expression_roundtrip, C04_expression_idempotent)"}, no_input=True)
 
+    def layer_G():
+        trees = list(gen_full(ck))
+        srcs, inputs = [], []
+        for t in trees:
+            ttoks, tab = [], {}
+            srcs.append(full_source(t, ck.rng, ttoks, tab))
+            inputs.append((ttoks, tab))
+        vars_by_name = dict(G_COND_VARS)
+        vars_by_name.update({o.name: o for o in (c12.Opd("a", True), c12.Opd("b", False), c12.Opd("c", None))})
+        cases, expected, meta = [], [], []
+        for src, (ttoks, tab), (r, s) in zip(srcs, inputs, batch(srcs)):
+            rejected = bool(r and r[0] == "orig-rejected")
+            ck.note_case(("full", src), nontrivial=not rejected)
+            if any(len(v) > 1 for v in tab.values()):          # one text, two readings (a bare literal as condition and as payload): no table
+                ck.count("G.templates.ambiguous-text-skipped")
+                continue
+            ck.count("G.templates" + (".rejected" if rejected else ""))
+            if r and not rejected:
+                report(ck, src, r, "G", counter)
+            gtab = g_list("(" + g_str(text) + ", " + g_list((f"ECond ({c12.g_tok(x)})" if kind == "cond" else g_etok(x)) for x in toks) + ")"
+                          for text, ((kind, toks),) in ((k, tuple(v)) for k, v in tab.items()))
+            case = "{| gc_toks := " + g_ttoks(ttoks) + "; gc_tab := " + gtab + " |}"
+            if rejected:
+                cases.append(case)
+                expected.append("None")
+                meta.append((src, None))
+                continue
+            ftoks = g_ftoks(tpl_tokens(s), vars_by_name)
+            if ftoks is None:
+                ck.violation("correspondence", "c04-template-text-not-tokenisable", f"str() of {src!r} is {s!r}: an expression outside the generated vocabulary",
+                             {"type": "roundtrip", "template": src, "str": s, "broken": "correspondence TemplateFull.run_gprint ~ str(template)"}, no_input=True)
+                continue
+            cases.append(case)
+            expected.append("Some " + g_list(ftoks))
+            meta.append((src, s))
+        if meta:
+            ck.sample({"template": meta[len(meta) // 2][0], "str": meta[len(meta) // 2][1]})
+        mm = ck.coq_mismatches("full", "PyPrims Cond CondPrint PathSyntax TagTree ExprSyntax TemplateFull", "run_gprint", "run_gprint_eqb", "gcase",
+                               "option (list ftok)", cases, expected, chunk=40 if ck.quick else 100)
+        ck.traces += len(cases)
+        for i in mm[:3]:
+            src, s = meta[i]
+            model = ck.coq_eval("PyPrims Cond CondPrint PathSyntax TagTree ExprSyntax TemplateFull", [f"run_gprint ({cases[i]})"])[0]
+            ck.violation("correspondence", "c04-template-correspondence", f"model TemplateFull.run_gprint (block parser, then every tag's expression parser, then the serialiser) and str() disagree on {src!r}: str() = {s!r}",
+                         {"type": "roundtrip", "template": src, "str": s, "model": model[:3000], "model_case": cases[i][:6000], "expected": expected[i][:6000],
+                          "broken": "correspondence TemplateFull.run_gprint ~ str(parse(src)) (theorems C04_template_roundtrip, C04_template_idempotent)"}, no_input=True)
+
     def layer_D():
         parsed = 0
         srcs = list(gen_rich(ck))
@@ -1287,7 +1508,7 @@ def run(ck: Check) -> None:
 
     only = os.environ.get("VERIF_C04_LAYERS", "")       # development aid: run a subset of the layers
 
-    for name, fn in (("A", layer_A), ("B", layer_B), ("E", layer_E), ("C", layer_C), ("F", layer_F), ("D", layer_D)):
+    for name, fn in (("A", layer_A), ("B", layer_B), ("E", layer_E), ("C", layer_C), ("F", layer_F), ("G", layer_G), ("D", layer_D)):
         if not only or name in only:
             t0 = time.time()
             fn()
